@@ -24,7 +24,7 @@ func (c12) Budget(tier string) int {
 	if tier == "thorough" {
 		return 60000
 	}
-	return 2400
+	return 24000
 }
 
 func (c12) Describe() engine.Info {
